@@ -46,6 +46,9 @@ def gen_world(rng):
             fields.append({'name': 'f%db' % i, 'kind': 'bit', 'type': 'BI1:2', 'first': 1, 'nbits': 2, 'lead': False})
             continue
         fields.append({'name': 'f%d' % i, 'kind': k, 'type': {'u8': 'UCH', 'u16': 'UIN', 'str': 'STR:2'}[k]})
+    # a second referenced message (conditions on different messages combine) and a same-named write sibling of the first one
+    fields2 = [{'name': 'g%d' % i, 'kind': 'u8', 'type': 'UCH'} for i in range(rng.randrange(1, 3))] if rng.random() < 0.5 else []
+    world = {'fields': fields, 'fields2': fields2, 'sibling': rng.random() < 0.4}
     conds = []
     nc = rng.randrange(1, 6)
     for ci in range(nc):
@@ -53,6 +56,9 @@ def gen_world(rng):
         c = {'name': 'c%d' % ci, 'shape': shape, 'msg': 'ref', 'field': '', 'values': '', 'numeric': True, 'resolvable': True, 'judge_eval': True}
         nums = [f for f in fields if f['kind'] != 'str']
         strs = [f for f in fields if f['kind'] == 'str']
+        if fields2 and shape in ('list', 'range', 'cmp', 'novalue') and rng.random() < 0.5:
+            c['msg'] = 'ref2'
+            nums = fields2
         if shape in ('list', 'range', 'cmp'):
             if not nums:
                 shape = c['shape'] = 'novalue'
@@ -106,15 +112,22 @@ def gen_world(rng):
             c['field'] = ''
             c['values'] = ''
         conds.append(c)
-    return fields, conds
+    return world, conds
 
 
-def build_csv(fields, conds, usable):
+def build_csv(world, conds, usable):
     lines = ['']
     cols = ['r', 'cc', 'ref', '', '', '08', 'b509', '0d01']
-    for f in fields:
+    for f in world['fields']:
         cols += [f['name'], '', f['type'], '', '', '']
     lines.append(','.join(cols))
+    if world['fields2']:
+        cols = ['r', 'cc', 'ref2', '', '', '08', 'b509', '0d02']
+        for f in world['fields2']:
+            cols += [f['name'], '', f['type'], '', '', '']
+        lines.append(','.join(cols))
+    if world['sibling']:
+        lines.append('w,cc,ref,,,08,b509,0d81,w0,,UCH,,,')
     for c in conds:
         lines.append('*[%s],cc,%s,,%s,,%s' % (c['name'], c['msg'], c['field'], '"%s"' % c['values'] if ',' in c['values'] else c['values']))
     msgs = []
@@ -127,6 +140,7 @@ def build_csv(fields, conds, usable):
 
 def cond_true(c, values_override, last):
     """reference predicate on the last stored field values (dict name -> raw int or str); None if nothing stored yet"""
+    last = last.get(c['msg']) if last else None      # the values last stored for the message this condition refers to
     if last is None:
         return False
     if c['shape'] == 'novalue' and values_override is None:
@@ -144,11 +158,12 @@ def cond_true(c, values_override, last):
 def shard(args):
     exe, seed, nhist, nsteps = args
     rng = random.Random(seed)
-    stats = {'evaluations': 0, 'nontrivial': 0, 'queries': 0, 'resolve_checks': 0, 'same_second_changes': 0, 'samples': [],
+    stats = {'evaluations': 0, 'nontrivial': 0, 'queries': 0, 'resolve_checks': 0, 'same_second_changes': 0, 'same_second_changes_of_two_messages': 0, 'sibling_stores': 0, 'samples': [],
              'condition_shapes': {}}
     viol = []
     for h in range(nhist):
-        fields, conds = gen_world(rng)
+        world, conds = gen_world(rng)
+        fields = world['fields']
         ssc0 = stats['same_second_changes']
         for c in conds:
             stats['condition_shapes'][c['shape']] = stats['condition_shapes'].get(c['shape'], 0) + 1
@@ -156,7 +171,7 @@ def shard(args):
         lines = []
         plan = []
         for ci, c in enumerate(conds):
-            lines += ['NEW\tr%d\t0' % ci, 'LOAD\tr%d\t%s' % (ci, esc(build_csv(fields, [c], [{'conds': [c['name']]}]))), 'RESOLVE\tr%d' % ci]
+            lines += ['NEW\tr%d\t0' % ci, 'LOAD\tr%d\t%s' % (ci, esc(build_csv(world, [c], [{'conds': [c['name']]}]))), 'RESOLVE\tr%d' % ci]
             plan += [None, ('load', ci), ('resolve', ci)]
         # phase 2: history on a map with the resolvable conditions only
         good = [c for c in conds if c['resolvable']]
@@ -168,23 +183,53 @@ def shard(args):
                 usable.append({'conds': ['%s=%s' % (c['name'], dv)], 'parts': [(c, dv)], 'judge': c['judge_eval']})
         if len(good) >= 2 and rng.random() < 0.7:
             a, b = rng.sample(good, 2)
+            on2 = [x for x in good if x['msg'] == 'ref2']
+            on1 = [x for x in good if x['msg'] == 'ref']
+            if on1 and on2 and rng.random() < 0.7:
+                a, b = rng.choice(on1), rng.choice(on2)       # parts on different referenced messages
+                if rng.random() < 0.5:
+                    a, b = b, a
             usable.append({'conds': [a['name'], b['name']], 'parts': [(a, None), (b, None)], 'judge': a['judge_eval'] and b['judge_eval']})
-        lines += ['TIME\t1700000000', 'NEW\th\t0', 'LOAD\th\t' + esc(build_csv(fields, good, usable)), 'RESOLVE\th']
+            if len(good) >= 3 and rng.random() < 0.3:
+                x, y, z = rng.sample(good, 3)
+                usable.append({'conds': [x['name'], y['name'], z['name']], 'parts': [(x, None), (y, None), (z, None)],
+                               'judge': x['judge_eval'] and y['judge_eval'] and z['judge_eval']})
+        lines += ['TIME\t1700000000', 'NEW\th\t0', 'LOAD\th\t' + esc(build_csv(world, good, usable)), 'RESOLVE\th']
         plan += [None, None, ('hload',), ('hresolve',)]
         now = 1700000000
-        last = None
-        last_data = None
-        expect_log = []
-        steps = []
-        prev_change_time = None
+        last = {'ref': None, 'ref2': None}
+        last_data = {'ref': None, 'ref2': None}
+        prev_change_time = {'ref': None, 'ref2': None}
+        any_store = False
+        cross_all = [k for k, u in enumerate(usable) if len({c['msg'] for c, _ in u['parts']}) >= 2]
+        forced = []
         for s in range(nsteps):
-            if rng.random() < 0.6:
-                now += rng.choice([0, 0, 0, 1, 2, 60])
+            if not forced and cross_all and rng.random() < 0.12:
+                # both referenced messages change within one second and the combination is asked in between and afterwards
+                k = rng.choice(cross_all)
+                order = rng.sample(['ref', 'ref2'], 2)
+                forced = [('store', order[0], rng.choice([1, 2])), ('query', k, 0), ('store', order[1], 0), ('query', k, 0)]
+            f0 = forced.pop(0) if forced else None
+            if (f0 and f0[0] == 'store') or (not f0 and rng.random() < 0.6):
+                now += f0[2] if f0 else rng.choice([0, 0, 0, 1, 2, 60])
                 lines.append('TIME\t%d' % now)
                 plan.append(None)
+                target = 'ref'
+                x = rng.random()
+                if f0:
+                    target = f0[1]
+                elif world['fields2'] and x < 0.4:
+                    target = 'ref2'
+                elif world['sibling'] and x > 0.8:
+                    # the write sibling of the referenced message is seen on the bus: the same-named messages are invalidated (as BusHandler
+                    # does for every telegram), the value of the read message and what was seen of it stay
+                    lines.append('STOREI\th\tcc\tref\t1\t0\tff08b509030d81%02x\t00' % rng.randrange(256))
+                    plan.append(('wstore', now))
+                    stats['sibling_stores'] += 1
+                    continue
                 vals = {}
                 data = b''
-                for f in fields:
+                for f in (fields if target == 'ref' else world['fields2']):
                     if f['kind'] == 'u8':
                         v = rng.choice([rng.randrange(0, 12), rng.randrange(0, 12), rng.randrange(0, 200)])
                         data += bytes([v])
@@ -200,35 +245,42 @@ def shard(args):
                         v = rng.choice(['ab', 'cd', 'xy', 'zz', 'qq'])
                         data += v.encode().ljust(2, b' ')
                     vals[f['name']] = v
-                changed = last_data != data      # what the message stores and compares are the raw bytes (unused bits included)
-                last_data = data
-                if changed and prev_change_time == now:
+                changed = last_data[target] != data      # what the message stores and compares are the raw bytes (unused bits included)
+                last_data[target] = data
+                if changed and prev_change_time[target] == now:
                     stats['same_second_changes'] += 1
+                if changed and target == 'ref2' and prev_change_time['ref'] == now or changed and target == 'ref' and prev_change_time['ref2'] == now:
+                    stats['same_second_changes_of_two_messages'] += 1
                 if changed:
-                    prev_change_time = now
-                last = vals
-                lines.append('STORE\th\tcc\tref\t0\t0\tff08b509020d01\t%02x%s' % (len(data), data.hex()))
-                plan.append(('store', dict(vals), now, changed))
+                    prev_change_time[target] = now
+                last[target] = vals
+                lines.append('%s\th\tcc\t%s\t0\t0\tff08b509020d%s\t%02x%s' % ('STOREI' if rng.random() < 0.5 else 'STORE', target, '01' if target == 'ref' else '02', len(data), data.hex()))
+                plan.append(('store', target, dict(vals), now, changed))
             else:
-                now += rng.choice([0, 0, 1])
+                now += f0[2] if f0 else rng.choice([0, 0, 1])
                 lines.append('TIME\t%d' % now)
                 plan.append(None)
                 i = rng.randrange(len(usable)) if usable else None
                 if i is None:
                     continue
+                if f0:
+                    i = f0[1]
+                elif cross_all and rng.random() < 0.3:
+                    i = rng.choice(cross_all)         # a combination over different referenced messages
+                snap = {k: (None if v is None else dict(v)) for k, v in last.items()}
                 if rng.random() < 0.7:
                     lines.append('AVAIL\th\tcc\tm%d\t0\t0' % i)
-                    plan.append(('avail', i, None if last is None else dict(last), now))
+                    plan.append(('avail', i, snap, now))
                 else:
                     lines.append('FIND\th\tff08b509020e%02x\t0\t1\t1\t1\t1' % i)
-                    plan.append(('find', i, None if last is None else dict(last), now))
+                    plan.append(('find', i, snap, now))
         rc, outl, err = run_server(exe, lines)
         if rc != 0 or len(outl) != len(lines):
             return stats, viol + ([('harness', 'cond shard rc=%s lines=%d/%d' % (rc, len(outl), len(lines)))] if rc == 0 else []), (rc, err) if rc else None
         stats['evaluations'] += 1
         hist_ok = True
         trace = []
-        change_times = []
+        change_times = {'ref': [], 'ref2': []}
         for pl, o, l in zip(plan, outl, lines):
             if pl is None:
                 continue
@@ -254,9 +306,12 @@ def shard(args):
             if not hist_ok:
                 continue
             if pl[0] == 'store':
-                trace.append('t=%d store %s' % (pl[2] - 1700000000, pl[1]))
-                if pl[3]:
-                    change_times.append(pl[2])
+                trace.append('t=%d store %s %s' % (pl[3] - 1700000000, pl[1], pl[2]))
+                if pl[4]:
+                    change_times[pl[1]].append(pl[3])
+                continue
+            if pl[0] == 'wstore':
+                trace.append('t=%d write sibling of ref seen' % (pl[1] - 1700000000))
                 continue
             i = pl[1]
             u = usable[i]
@@ -271,10 +326,11 @@ def shard(args):
             if not u['judge']:
                 continue
             if got != exp:
-                cdesc = ' '.join('[%s: %s %s %s]' % (x, c['field'] or '(first)', 'in' if c['values'] else 'seen', ov if ov is not None else c['values'])
+                cdesc = ' '.join('[%s: %s.%s %s %s]' % (x, c['msg'], c['field'] or '(first)', 'in' if c['values'] else 'seen', ov if ov is not None else c['values'])
                                  for x, (c, ov) in zip(u['conds'], u['parts']))
-                # two value changes carrying the same one-second timestamp: the known staleness of SimpleCondition::isTrue
-                same_sec = len(change_times) >= 2 and change_times.count(change_times[-1]) >= 2
+                # two value changes of one referenced message carrying the same one-second timestamp: the known staleness of
+                # SimpleCondition::isTrue (per referenced message: changes of two different messages in one second are not affected)
+                same_sec = any(len(ct) >= 2 and ct.count(ct[-1]) >= 2 for ct in (change_times[c['msg']] for c, _ in u['parts'] if c['msg'] in change_times))
                 viol.append(('availability-stale:two-changes-in-one-second' if same_sec else 'availability-wrong',
                              'conditions %s; last stored values %s; isAvailable/find says %s, expected %s; history tail: %s' % (
                                  cdesc, lastv, got, exp, ' | '.join(trace[-7:]))))
@@ -282,7 +338,7 @@ def shard(args):
         if stats['same_second_changes'] > ssc0 and usable:
             stats['nontrivial'] += 1
         if len(stats['samples']) < 1:
-            stats['samples'].append({'definition': build_csv(fields, good, usable).split('\n')[1:6], 'history_tail': trace[-5:]})
+            stats['samples'].append({'definition': build_csv(world, good, usable).split('\n')[1:6], 'history_tail': trace[-5:]})
     return stats, viol[:60], None
 
 
@@ -295,12 +351,15 @@ def main():
     c.coverage.update({
         'evaluations': int(tot.get('evaluations', 0)),
         'distinct_nontrivial': int(tot.get('nontrivial', 0)),
-        'rule': 'worlds = referenced message with 1..4 fields (UCH/UIN/STR) + 1..5 conditions of shapes list/range/<,>,<=,>=/string list/'
+        'rule': 'worlds = referenced message with 1..4 fields (UCH/UIN/STR/bit pairs), in half of the worlds a second referenced message and in 40%% a '
+                'same-named write sibling whose telegrams invalidate the cached state (MessageMap::invalidateCache as in BusHandler) + 1..5 conditions of shapes list/range/<,>,<=,>=/string list/'
                 'no value/unnamed field/missing field/wrong kind/missing message + conditional messages (single, on-the-fly derived [c=v], '
                 'combined [a][b]); histories of 30 steps: storeLastData of random values (60%%) or isAvailable()/find(master) queries, clock steps '
                 'from {0,0,0,1,2,60} s. non-trivial = history (distinct PRNG stream) with >=2 value changes inside one virtual second and at least one resolvable condition',
         'availability_queries': int(tot.get('queries', 0)), 'resolve_checks': int(tot.get('resolve_checks', 0)),
-        'same_second_value_changes': int(tot.get('same_second_changes', 0)), 'condition_shapes': tot.get('condition_shapes', {}),
+        'same_second_value_changes': int(tot.get('same_second_changes', 0)),
+        'same_second_changes_of_two_referenced_messages': int(tot.get('same_second_changes_of_two_messages', 0)),
+        'write_sibling_telegrams_between_queries': int(tot.get('sibling_stores', 0)), 'condition_shapes': tot.get('condition_shapes', {}),
         'samples': tot.get('samples', []),
     })
     c.assumptions += ['numeric conditions compare the raw (unscaled) field value; replacement values are not stored',
